@@ -20,19 +20,19 @@ COMMON_NOTE = "Trusted base: simkube API-server model (h/simkube, conformance-te
 
 CLAIMED = {
     "C01": {
-        "text": "Every history of real XR reconciles (function-pipeline and P&T composers, production wiring) with up to F faults - each API call of the first W reconciles answering {error before, conflict, error after, crash before, crash after} - followed by fault-free reconciles to quiescence is enumerated (DFS with state-hash pruning); I1 (no live composed resource outside spec.resourceRefs) and I2 (one object per desired name, stable metadata.name) are evaluated after every effective write, I3 (quiescence, all desired resources present and referenced) at the end. quick W=2 F<=2, thorough W=3..4 F<=3, both map orders, 7 initial states; plus a function that names a resource itself after an XR field, and windows in which every read of a composed kind misses the controller's cache (served only by the uncached fallback).",
+        "text": "Every history of real XR reconciles (function-pipeline and P&T composers, production wiring) with up to F faults - each API call of the first W reconciles answering {error before, conflict, error after, crash before, crash after} - followed by fault-free reconciles to quiescence is enumerated (DFS with state-hash pruning); I1 (no live composed resource outside spec.resourceRefs) and I2 (one object per desired name, stable metadata.name) are evaluated after every effective write, I3 (quiescence, all desired resources present and referenced) at the end. quick W=2 F<=2, thorough W=3..4 F<=3, both map orders, 7 initial states; plus a function that names a resource itself after an XR field, windows in which every read of a composed kind misses the controller's cache (served only by the uncached fallback), a P&T template removed from the Composition, and cached reads answered 404.",
         "technique": "bounded exhaustive fault / crash-point enumeration on the real reconciler (stateless DFS over choice sequences, state-hash pruning)",
     },
     "C03": {
-        "text": "All pipelines of 1..N steps over a 12-14 behaviour alphabet (grow/shrink/rename desired sets, error, fatal/warning/normal results, requirement sequences that stabilise after 0,1,4 rounds or never) x 7 observed states (none, a, a+b, referenced-but-deleted, terminating, foreign-controlled, uncontrolled) x 2 map orders run through the real XR reconciler and compared with a reference interpreter: a failing pipeline performs no write on any composed kind and leaves spec.resourceRefs unchanged; a succeeding one deletes exactly observed minus final-desired and never deletes a still-desired resource; plus one injected API fault (reads included) per reconcile, all P&T template-set changes x perturbations (incl. foreign owners that merely share the XR's name), and the same pipelines with the functions as real gRPC servers (v1, and v1beta1-only reached through the fallback) behind the real PackagedFunctionRunner.",
+        "text": "All pipelines of 1..N steps over a 12-14 behaviour alphabet (grow/shrink/rename desired sets, error, fatal/warning/normal results, requirement sequences that stabilise after 0,1,4 rounds or never) x 7 observed states (none, a, a+b, referenced-but-deleted, terminating, foreign-controlled, uncontrolled) x 2 map orders run through the real XR reconciler and compared with a reference interpreter: a failing pipeline performs no write on any composed kind and leaves spec.resourceRefs unchanged; a succeeding one deletes exactly observed minus final-desired and never deletes a still-desired resource; plus one injected API fault (reads included) per reconcile, all P&T template-set changes x perturbations (incl. foreign owners that merely share the XR's name), and the same pipelines with the functions as real gRPC servers (v1, and v1beta1-only reached through the fallback) behind the real PackagedFunctionRunner; a reconcile hit by a fault is followed by fault-free retries that must end with exactly the final desired resources.",
         "technique": "exhaustive enumeration of function-pipeline programs and single-fault reconciles against a reference interpreter",
     },
     "C05": {
-        "text": "Full product of per-resource (ready, invalid/render-failure) outcomes x XR-level ready x one function condition (Ready/Synced/Healthy/Custom x True/False x target) x forged desired-XR status (conditions, claimConditionTypes) x fatal step x initial conditions x claim syncer, for both composers; the statement is transcribed on the stored conditions and every case is re-run without the function-supplied conditions (differential oracle: system conditions of XR and claim must be identical); plus the claim controller's cache lagging the XR by 0..3 versions over each readiness history: a claim is reported Ready=True only if the most recent copy of the XR the reconcile was given is Ready=True.",
+        "text": "Full product of per-resource (ready, invalid/render-failure) outcomes x XR-level ready x one function condition (Ready/Synced/Healthy/Custom x True/False x target) x forged desired-XR status (conditions, claimConditionTypes) x fatal step x initial conditions x claim syncer, for both composers; the statement is transcribed on the stored conditions and every case is re-run without the function-supplied conditions (differential oracle: system conditions of XR and claim must be identical); two readiness checks per P&T template met in every combination; plus the claim controller's cache lagging the XR by 0..3 versions over each readiness history: a claim is reported Ready=True only if the most recent copy of the XR the reconcile was given is Ready=True.",
         "technique": "exhaustive input-product enumeration on the real XR and claim reconcilers with a differential oracle",
     },
     "C06": {
-        "text": "Histories of W real claim reconciles (client-side and server-side-apply syncers) where every API call is a fault/crash point and every cached read of claim/XR may be up to 3 writes stale (<= F deviations), interleaved with exhaustive environment events (XR reconciles, claim deletion), continued to quiescence; J1 (at most one XR per claim), J2 (claim references the XR at the instant it is created), J3 (name stable), J4 (no write to an XR bound to another claim) evaluated after every effective write; 7 initial states incl. hijack attempts (other name, same name in another namespace), pending reference, and a claim that was deleted and finalized but is still served by a lagging cache. Plus thread-mode scenarios: all API-call-level interleavings (<= 2, thorough 3 preemptions) of the claim reconciler, the XR reconciler and the user's deletion of the claim.",
+        "text": "Histories of W real claim reconciles (client-side and server-side-apply syncers) where every API call is a fault/crash point and every cached read of claim/XR may be up to 3 writes stale (<= F deviations), interleaved with exhaustive environment events (XR reconciles, claim deletion), continued to quiescence; J1 (at most one XR per claim), J2 (claim references the XR at the instant it is created), J3 (name stable), J4 (no write to an XR bound to another claim) evaluated after every effective write; 9 initial states incl. hijack attempts (other name, same name in another namespace, reference under a foreign kind, reference edited after binding), 404 answers for reads of the claim (and of the XR on the deletion path), pending reference, and a claim that was deleted and finalized but is still served by a lagging cache. Plus thread-mode scenarios: all API-call-level interleavings (<= 2, thorough 3 preemptions) of the claim reconciler, the XR reconciler and the user's deletion of the claim.",
         "technique": "bounded exhaustive fault / crash-point / cache-lag enumeration on the real claim reconciler (DFS with state-hash pruning)",
     },
 }
@@ -43,7 +43,7 @@ CLAIMED.update({
         "technique": "exhaustive small-scope input enumeration against an independent reference implementation (real Resolve/Apply/PTComposer code)",
     },
     "C14": {
-        "text": "Depth-bounded exhaustive search (state-hash pruning ranked by remaining depth) over sequences of package edits (source tags incl. rollbacks and a second tag of one digest, history limit, activation policy, pull policy), registry changes (re-tag, failure), revision health flips and real package-manager reconciles in which every API write is a fault/crash point; A1 (never two Active) after every write, A2 (current revision exists, highest number, Active unless manual) after each completed reconcile, A3 (names are a function of package and digest), A4 (GC only of the oldest non-current revision, only above limit+1, never with limit 0/nil) on every delete. Initial states: fresh, two-revision history, and an established package under a registry menu (outage, re-tag, IfNotPresent) where a completed reconcile must leave as current a revision of a digest the source's tag has pointed at, whether or not it asked the registry.",
+        "text": "Depth-bounded exhaustive search (state-hash pruning ranked by remaining depth) over sequences of package edits (source tags incl. rollbacks and a second tag of one digest, history limit, activation policy, pull policy), registry changes (re-tag, failure), revision health flips and real package-manager reconciles in which every API write is a fault/crash point; A1 (never two Active) after every write, A2 (current revision exists, highest number, Active unless manual) after each completed reconcile, A3 (names are a function of package and digest), A4 (GC only of the oldest non-current revision, only above limit+1, never with limit 0/nil) on every delete. Initial states: fresh, two-revision history, and an established package under a registry menu (outage, re-tag, IfNotPresent) where a completed reconcile must leave as current a revision of a digest the source's tag has pointed at, whether or not it asked the registry; revisions carry the revision controller's finalizer, so collected ones linger until an explicit event.",
         "technique": "explicit-state search over event sequences with the real reconciler as transition function, plus fault/crash-point enumeration",
     },
 })
@@ -58,28 +58,28 @@ CLAIMED.update({
 
 CLAIMED.update({
     "C18": {
-        "text": "All allow-list x request rule-set pairs (sizes 0..2 each; thorough 2x2 over the 48-rule core universe = 1.27M pairs) over groups {'',g,*} x resources {r,r/status,*,*/status} x names {none,[n],['*']} x verbs {[get],[*]}, non-resource URL rules and mixed rules are run through the real validator and compared with an independent evaluator of Kubernetes RBAC over concrete requests (universe = mentioned constants + one fresh symbol per dimension): if Crossplane accepts, everything the requests grant is granted by the allow-list (being stricter is counted, not a violation); the validator instance is first used against an allow-all role that is then edited to the case's allow-list. Reconciler level (real roles, binding and definition reconcilers over simkube): any uncovered request => no ClusterRole write; otherwise granted-by(system role) is a subset of own CRDs + same-family same-registry+org CRDs (+status, finalizers) + baseline + requests, over family label x package source (registry/org/prefix/digest/invalid) x owned reference lists; XRD roles grant exactly composite and claim resources.",
+        "text": "All allow-list x request rule-set pairs (sizes 0..2 each; thorough 2x2 over the 48-rule core universe = 1.27M pairs) over groups {'',g,*} x resources {r,r/status,*,*/status} x names {none,[n],['*']} x verbs {[get],[*]}, non-resource URL rules and mixed rules are run through the real validator and compared with an independent evaluator of Kubernetes RBAC over concrete requests (universe = mentioned constants + one fresh symbol per dimension): if Crossplane accepts, everything the requests grant is granted by the allow-list (being stricter is counted, not a violation); the validator instance is first used against an allow-all role that is then edited to the case's allow-list. Reconciler level (real roles, binding and definition reconcilers over simkube): any uncovered request => no ClusterRole write; an existing binding with a stale subject loses it; otherwise granted-by(system role) is a subset of own CRDs + same-family same-registry+org CRDs (+status, finalizers) + baseline + requests, over family label x package source (registry/org/prefix/digest/invalid) x owned reference lists; XRD roles grant exactly composite and claim resources.",
         "technique": "exhaustive small-scope enumeration of rule-set pairs against an independent RBAC reference evaluator; real reconcilers over the API-server model",
     },
 })
 
 CLAIMED.update({
     "C17": {
-        "text": "Every lock graph on <= 3 (quick) / <= 4 (thorough: all 65,536 adjacency matrices x every set of missing nodes = 83,521) packages x Go map iteration orders (all permutations, owned by the overlay) for both DAG implementations against reference cycle detection, transitive closure and topological-order validation; version selection through the real resolver reconciler for all ordered tag lists over {v1.0.0,v1.1.0,v2.0.0,v1.2.0-rc.1,1.0,latest,v0.9.0} x 11 constraint strings (ranges, exact, digest, invalid) x installed version x upgrade/downgrade options against a reference selection rule; every cyclic lock performs no package write; PackageDependencyManager.Resolve totals and verdict against a reference for every graph x constraint assignment x which dependency is installed by digest.",
+        "text": "Every lock graph on <= 3 (quick) / <= 4 (thorough: all 65,536 adjacency matrices x every set of missing nodes = 83,521) packages x Go map iteration orders (all permutations, owned by the overlay) for both DAG implementations against reference cycle detection, transitive closure and topological-order validation; version selection through the real resolver reconciler for all ordered tag lists over {v1.0.0,v1.1.0,v2.0.0,v1.2.0-rc.1,1.0,latest,v0.9.0} x 11 constraint strings (ranges, exact, digest, invalid) x installed version x upgrade/downgrade options against a reference selection rule; every cyclic lock performs no package write; PackageDependencyManager.Resolve totals and verdict against a reference for every graph x constraint assignment x which dependency is installed by digest; an unrelated package with the same repository path in another registry must stay untouched.",
         "technique": "exhaustive small-scope enumeration (all digraphs, all map orders, all tag lists) against independent reference algorithms",
     },
 })
 
 CLAIMED.update({
     "C16": {
-        "text": "Depth-bounded exhaustive search (state-hash pruning) over upgrade / rollback histories starting from an established revision: package source edits, real package-manager reconciles (which activate and deactivate revisions), real revision reconciles in any order (real parser, linter, filesystem cache, APIEstablisher incl. its dry-run validation pass), garbage-collector runs and deletion of inactive revisions, with an API error at any call of a revision reconcile or, instead, one action of a third party between two calls (it deletes a package object, or creates it under another owner's control); seven image variants (plain upgrade; an object controlled by another package's revision; an object the API server rejects; a foreign-controlled object; an uncontrolled pre-existing object). E1 all-or-nothing on establish failure, E2 only active revisions create / become controller (checked at every write), E3 deactivation drops control but keeps ownership, E4 established objects keep the package as non-controlling owner, E5 the garbage collector never deletes a CRD while its package exists.",
+        "text": "Depth-bounded exhaustive search (state-hash pruning) over upgrade / rollback histories starting from an established revision: package source edits, real package-manager reconciles (which activate and deactivate revisions), real revision reconciles in any order (real parser, linter, filesystem cache, APIEstablisher incl. its dry-run validation pass), garbage-collector runs and deletion of inactive revisions, with an API error at any call of a revision reconcile or, instead, one action of a third party between two calls (it deletes a package object, or creates it under another owner's control) or the package manager deactivating the revision between the reconciler's read and its first write; seven image variants (plain upgrade; an object controlled by another package's revision; an object the API server rejects; a foreign-controlled object; an uncontrolled pre-existing object). E1 all-or-nothing on establish failure, E2 only active revisions create / become controller (checked at every write), E3 deactivation drops control but keeps ownership, E4 established objects keep the package as non-controlling owner, E5 the garbage collector never deletes a CRD while its package exists.",
         "technique": "explicit-state search over event sequences with the real reconcilers as transition function, plus API-fault enumeration",
     },
 })
 
 CLAIMED.update({
     "C11": {
-        "text": "Exhaustive enumeration of XRDs built from choices: 18 spec-property variants (each machinery key shadowed with a different type, all at once, none) x 7 status variants x name maxLength x required lists x CEL rules x oneOf / preserve-unknown-fields / descriptions, 10 version layouts with exactly one referenceable version, claim names absent / present / colliding in each name (also with the other optional name omitted), default policies, conversion; oracle: structural (every version, one storage version = referenceable, scope, controller reference, author properties / required / rules preserved) and differential (the CRD rendered with colliding author properties equals the one rendered without them; machinery keys equal an independent key->type table; independent of map iteration order); all 24x24 (old,new) update pairs x XRD life cycle {live, being deleted, being deleted with a finalizer removed} and all creates go through ValidateUpdate/ValidateCreate and the real admission webhook; a rival XRD offering the same claim names must not take over the claim CRD; the real definition and offered reconcilers render the same CRDs over simkube.",
+        "text": "Exhaustive enumeration of XRDs built from choices: 18 spec-property variants (each machinery key shadowed with a different type, all at once, none) x 7 status variants x name maxLength x required lists x CEL rules x oneOf / preserve-unknown-fields / descriptions, 10 version layouts with exactly one referenceable version, claim names absent / present / colliding in each name (also with the other optional name omitted), default policies, conversion; oracle: structural (every version, one storage version = referenceable, scope, controller reference, author properties / required / rules preserved) and differential (the CRD rendered with colliding author properties equals the one rendered without them; machinery keys equal an independent key->type table; independent of map iteration order); all 24x24 (old,new) update pairs x XRD life cycle {live, being deleted, being deleted with a finalizer removed} and all creates go through ValidateUpdate/ValidateCreate and the real admission webhook; a rival XRD offering the same claim names must not take over the claim CRD; after an XRD update the stored CRD equals the current rendering (no field of the earlier CRD survives); the real definition and offered reconcilers render the same CRDs over simkube.",
         "technique": "exhaustive small-scope input enumeration with structural and differential oracles on the real xcrd / validation / webhook code",
     },
     "C15": {
@@ -90,25 +90,25 @@ CLAIMED.update({
 
 CLAIMED.update({
     "C12": {
-        "text": "Depth-bounded exhaustive search (state-hash pruning; transitions memoised per (state, event, fault decisions)) over sequences of: Composition edits to five contents (spec change, label-only, annotation-only, step-input change, incl. A-B-A reverts), real revision-controller reconciles in which every API call is a fault/crash point, stripping the owner references of all revisions (backup/restore), deletion of the oldest revision, and real XR reconciles for a Manual, an Automatic and an Automatic-with-selector XR; from a fresh state and from a prepared three-revision history. R1 one revision per content hash, R2 revision specs never edited apart from the number, R3 numbers never decrease, R4 after a reconcile that reports completion (no error, no requeue - also when a call inside it was answered with an injected fault) the current content's revision has the strictly highest number, R5 Manual XRs keep their revision and Automatic XRs end on the highest-numbered controlled (selector-matching) revision.",
+        "text": "Depth-bounded exhaustive search (state-hash pruning; transitions memoised per (state, event, fault decisions)) over sequences of: Composition edits to five contents (spec change, label-only, annotation-only, step-input change, incl. A-B-A reverts), real revision-controller reconciles in which every API call is a fault/crash point, stripping the owner references of all revisions (backup/restore), deletion of the oldest revision, and real XR reconciles for a Manual, an Automatic and an Automatic-with-selector XR; from a fresh state and from a prepared three-revision history. R1 one revision per content hash, R2 revision specs never edited apart from the number, R3 numbers never decrease, R4 after a reconcile that reports completion (no error, no requeue - also when a call inside it was answered with an injected fault) the current content's revision has the strictly highest number, two further scenarios run edits, one faulted reconcile and its retries on one live controller instance without the memo; R5 Manual XRs keep their revision and Automatic XRs end on the highest-numbered controlled (selector-matching) revision.",
         "technique": "explicit-state search over event sequences with the real reconcilers as transition function, plus fault/crash-point enumeration",
     },
 })
 
 CLAIMED.update({
     "C09": {
-        "text": "Real XR reconciler (both composers, XRD key filter) and real claim reconciler (both syncers) over simkube: all 8 produced-key subsets x 4 key filters x 3 ways of asking x pre-existing destination secret {absent, uncontrolled connection type, uncontrolled Opaque, owned, other UID} x stale data; P&T extraction configs of all three types incl. missing keys / paths and unnamed configs; 9 source-secret situations x destination states for claim propagation (a claim never copies a secret its XR does not control; foreign secrets stay byte-identical); steady-state reconciles write nothing and do not move lastPublishedTime; one injected API fault (reads included) in any of 5 reconciles followed by fault-free reconciles to quiescence ends in the reference secrets; a function that copies the details of observed composed resources never receives (from the cache or, on a cache miss, from the API server) a resource named in spec.resourceRefs that another owner controls, and its details never reach the XR's secret.",
+        "text": "Real XR reconciler (both composers, XRD key filter) and real claim reconciler (both syncers) over simkube: all 8 produced-key subsets x 4 key filters x 3 ways of asking x pre-existing destination secret {absent, uncontrolled connection type, uncontrolled Opaque, owned, other UID} x stale data; P&T extraction configs of all three types incl. missing keys / paths and unnamed configs; 9 source-secret situations x destination states for claim propagation (a claim never copies a secret its XR does not control; foreign secrets stay byte-identical); steady-state reconciles write nothing and do not move lastPublishedTime; one injected API fault (reads included) in any of 5 reconciles followed by fault-free reconciles to quiescence ends in the reference secrets; intruder claims (other name, namesake in another namespace) that point at the XR never obtain its secret; the external-secret-stores wiring filters like the default one; a function that copies the details of observed composed resources never receives (from the cache or, on a cache miss, from the API server) a resource named in spec.resourceRefs that another owner controls, and its details never reach the XR's secret.",
         "technique": "exhaustive configuration enumeration plus single-fault enumeration on the real reconcilers against a reference model of published keys",
     },
     "C19": {
-        "text": "Depth-bounded exhaustive search (state-hash pruning) over creations / deletions of two Usages of one resource (by reference, by selector, with controller matching, with and without a using resource, naming API version v1 or v2, replayDeletion, composed Usages whose deletion waits for the using resource; from the initial state and from a state with both Usages Ready), real usage reconciles with an API write fault or crash at any call, DELETE requests with every propagation policy through both API versions, deletion of the using resource, garbage-collector runs, the using resource re-created under the same name, and clock advances; plus thread-mode scenarios in which the finalization of one Usage and the creation + reconciles of another Usage of the same resource run concurrently (all interleavings of their API calls, <= 2, thorough 3 preemptions); DELETE admission is dispatched to the real webhook handler and index function according to the repository's webhook configuration. M1 every DELETE is refused while a Usage of the resource is Ready and not being deleted and allowed when none names it, M2 refused attempts are recorded, M3 marker before ready, M4 marker removed only by the last Usage (no other Usage of the resource exists, waiting-to-be-finalized ones included), M5 a Usage by a resource is owned by that very object (UID).",
+        "text": "Depth-bounded exhaustive search (state-hash pruning) over creations / deletions of two Usages of one resource (by reference, by selector, with controller matching, with and without a using resource, naming API version v1 or v2, replayDeletion, composed Usages whose deletion waits for the using resource; from the initial state and from a state with both Usages Ready), real usage reconciles with an API write fault or crash at any call, DELETE requests with every propagation policy through both API versions, deletion of the using resource, garbage-collector runs, the using resource re-created under the same name, and clock advances; plus thread-mode scenarios in which the finalization of one Usage and the creation + reconciles of another Usage of the same resource run concurrently (all interleavings of their API calls, <= 2, thorough 3 preemptions); DELETE admission is dispatched to the real webhook handler and index function according to the repository's webhook configuration. M1 every DELETE is refused while a Usage of the resource is Ready and not being deleted and allowed when none names it, M2 refused attempts are recorded, M3 marker before ready, M4 marker removed only by the last Usage (no other Usage of the resource exists, waiting-to-be-finalized ones included), M5 a Usage by a resource is owned by that very object (UID), S1 a selector names a resource it matches (a decoy with the same labels but another controller is never selected).",
         "technique": "explicit-state search over event sequences with the real reconciler and admission handler as transition functions, plus fault/crash-point enumeration",
     },
 })
 
 CLAIMED.update({
     "C07": {
-        "text": "Real claim reconciler over simkube in three modes (client-side syncer, server-side-apply syncer, upgrade from the former to the latter), three reconciles per case (first sync, re-sync after the XR side wrote its own state and the user edited the claim, settle): claims valid for the generated claim CRD (pruned and defaulted with the real apiextensions structural-schema code) with 4 user-field shapes whose nested names collide with machinery names, 18 (thorough: all 768) subsets of claim machinery fields x update policy, 9 label / annotation key classes (reserved, subdomains, near-miss domains, bare names; thorough: all 512 subsets), external names on either side, 3 XR status variants; every stored field of the XR and the claim is compared with an independent partition of the field space (claim-owned / XR-owned / shared by policy) after every reconcile; the reconciler and syncer instances first serve other claims of each update policy (state kept in an instance must not leak between claims).",
+        "text": "Real claim reconciler over simkube in three modes (client-side syncer, server-side-apply syncer, upgrade from the former to the latter), three reconciles per case (first sync, re-sync after the XR side wrote its own state and the user edited the claim, settle): claims valid for the generated claim CRD (pruned and defaulted with the real apiextensions structural-schema code) with 4 user-field shapes whose nested names collide with machinery names, 18 (thorough: all 768) subsets of claim machinery fields x update policy, 9 label / annotation key classes (reserved, subdomains, near-miss domains, bare names; thorough: all 512 subsets), external names on either side, 3 XR status variants; every stored field of the XR and the claim is compared with an independent partition of the field space (claim-owned / XR-owned / shared by policy) after every reconcile; the reconciler and syncer instances first serve other claims of each update policy (state kept in an instance must not leak between claims), and the XR's status moves on before the last sync.",
         "technique": "exhaustive configuration enumeration against an independent reference partition of the field space (real reconciler and syncers)",
     },
 })
@@ -122,7 +122,7 @@ CLAIMED.update({
 
 CLAIMED.update({
     "C08": {
-        "text": "Four closed sub-systems searched by depth-bounded DFS with state-hash pruning, every transition executed by the real code: H1 claim + XR + dependent with a provider finalizer (Background / Foreground, both syncers); H2 XRD with the real definition and offered reconcilers on the real ControllerEngine (over harness informers and controllers whose context shows whether they were stopped; informer lookups may fail like API calls), and a bound claim + XR that are only reconciled while their dynamic controller runs (composite CRD ours or foreign; a CRD whose deletion was requested stays terminating behind the API server's customresourcecleanup finalizer until a crd-cleanup event has seen its instances go; a third party may delete the composite CRD; starts: steady, XRD deletion under way, CRD deleted by a third party); H3 package revision + dependency Lock (real revision reconciler and PackageDependencyManager); H4 composed Usage + using + used resource. Events: user deletions (claim, XR, XRD, revision, Usage, using resource), one full reconcile of any controller on any object with an API fault or crash at any call, single garbage-collector steps (which one is a choice), third-party finalizer removal. Trace monitors at every write: claim finalizer removed only after an XR delete was issued (Foreground: XR gone); CRD deleted only with no instances and a stopped controller; controller stopped only with no instances; XRD finalizers removed only when the CRD is gone or never ours; revision finalized only when out of the Lock; composed Usage finalized only when its using resource is gone.",
+        "text": "Four closed sub-systems searched by depth-bounded DFS with state-hash pruning, every transition executed by the real code: H1 claim + XR + dependent with a provider finalizer (Background / Foreground, both syncers; variant: the XR's claimRef records an older API version of the claim); H2 XRD with the real definition and offered reconcilers on the real ControllerEngine (over harness informers and controllers whose context shows whether they were stopped; informer lookups may fail like API calls), and a bound claim + XR that are only reconciled while their dynamic controller runs (composite CRD ours or foreign; a CRD whose deletion was requested stays terminating behind the API server's customresourcecleanup finalizer until a crd-cleanup event has seen its instances go; a third party may delete the composite CRD; Crossplane may restart - new engine with no controller running; starts: steady, XRD deletion under way, CRD deleted by a third party); H3 package revision + dependency Lock (real revision reconciler and PackageDependencyManager); H4 composed Usage + using + used resource. Events: user deletions (claim, XR, XRD, revision, Usage, using resource), one full reconcile of any controller on any object with an API fault or crash at any call, single garbage-collector steps (which one is a choice), third-party finalizer removal. Trace monitors at every write: claim finalizer removed only after an XR delete was issued (Foreground: XR gone); CRD deleted only with no instances and a stopped controller; controller stopped only with no instances; XRD finalizers removed only when the CRD is gone or never ours; revision finalized only when out of the Lock; composed Usage finalized only when its using resource is gone.",
         "technique": "explicit-state search over event sequences (deletions, reconciles, GC steps) with the real reconcilers as transition functions, plus fault/crash-point enumeration",
     },
 })
